@@ -39,9 +39,10 @@ LABELS = {'param': 'Parameters', 'keyword': 'Parameters', 'return': 'Returns', '
 
 def source_for(doc: Dict[str, Any], fmt: str) -> Tuple[str, str]:
     text = docmodel.serialise(doc, fmt)
+    pre = 'class Engine:\n    """a target for cross-references"""\n    def start(self):\n        """start"""\n'
     if doc['kind'] == 'class':
-        return 'class K:\n    %s\n    def __init__(self):\n        self.iv1 = 1\n        self.iv2 = 2\n    cv1 = 0\n' % repr(text), 'm.K'
-    return 'def f(a, b, c, **kw):\n    %s\n' % repr(text), 'm.f'
+        return pre + 'class K:\n    %s\n    def __init__(self):\n        self.iv1 = 1\n        self.iv2 = 2\n    cv1 = 0\n' % repr(text), 'm.K'
+    return pre + 'def f(a, b, c, **kw):\n    %s\n' % repr(text), 'm.f'
 
 
 def _text(node: Any) -> str:
